@@ -148,11 +148,31 @@ def check_path(spec):
     return None
 
 
-def rand_closed(rng):
+def rand_closed(rng, flower=False):
     r = rng.random()
     o = (float(rng.randint(-200, 200)), float(rng.randint(-200, 200)))
     base = {"v": (float(rng.randint(-500, 500)), float(rng.randint(-500, 500))), "k": rng.choice([2.0, 0.5, -1.0, 3.0, rng.uniform(0.2, 4)]),
             "th": rng.uniform(-3.1, 3.1), "c": o}
+    if flower:
+        # "flower": a long outline made of many short curved segments all bulging outwards (the flattening error of every
+        # petal has the same sign, so errors add up instead of cancelling; total length well above 2000 units)
+        n = rng.randint(300, 420)
+        R = float(rng.randint(2000, 6000))
+        bulge = rng.uniform(0.5, 2.0)
+        segs = []
+        for k in range(n):
+            a0, a1 = 2 * math.pi * k / n, 2 * math.pi * (k + 1) / n
+            p0 = (o[0] + R * math.cos(a0), o[1] + R * math.sin(a0))
+            p1 = (o[0] + R * math.cos(a1), o[1] + R * math.sin(a1))
+            w = math.hypot(p1[0] - p0[0], p1[1] - p0[1])
+            am = (a0 + a1) / 2
+            c = ((p0[0] + p1[0]) / 2 + bulge * w * math.cos(am), (p0[1] + p1[1]) / 2 + bulge * w * math.sin(am))
+            if k % 2:
+                segs.append([p0, c, p1])
+            else:
+                segs.append([p0, (p0[0] + (c[0] - p0[0]) * 1.2, p0[1] + (c[1] - p0[1]) * 1.2), (p1[0] + (c[0] - p1[0]) * 1.2, p1[1] + (c[1] - p1[1]) * 1.2), p1])
+        segs[-1][-1] = segs[0][0]
+        return dict(base, kind="chain", segs=segs, ccw=None)
     if r < 0.15:
         return dict(base, kind="rect", w=float(rng.randint(1, 400)), h=float(rng.randint(1, 400)), o=o)
     if r < 0.3:
@@ -206,7 +226,7 @@ def search(ctx, budget):
             if len(set(map(tuple, inp["pts"]))) >= 2 and repr(inp) not in seen:
                 seen.add(repr(inp)); nontriv += 1
         else:
-            inp = rand_closed(rng)
+            inp = rand_closed(rng, flower=(i // 7) % 50 == 7)
             kind = "path"
             if repr(inp) not in seen:
                 seen.add(repr(inp)); nontriv += 1
